@@ -20,7 +20,8 @@ PREV = {
   "the flag bit in the tag of a hand-written wrapper struct (InitConnectionParams)",
   "PutString replacing invalid UTF-8 sequences before framing",
   "the interface-fit check of decodeValue calling reflect.Value.IsNil on every decoded kind",
-  "the msg_container reader written as a composite literal (fields read in struct order)"
+  "the msg_container reader written as a composite literal (fields read in struct order)",
+  "a home-made emptiness test that looks through pointers held in interface fields"
  ],
  "C02": [
   "one header byte of the long-string length in the TL encoder",
@@ -35,7 +36,8 @@ PREV = {
   "the decoder's depth given back by a deferred closure that captured the incremented value",
   "the flag bit decided by a home-made emptiness test (empty slice counts as absent)",
   "int128/int256 left-padded from a package-level zero array that append writes into",
-  "decodeObject allocating a pointer field before its presence test"
+  "decodeObject allocating a pointer field before its presence test",
+  "the container element allocated once before the decoding loop"
  ],
  "C03": [
   "the padding amount computed in ige.Encrypt",
@@ -50,7 +52,8 @@ PREV = {
   "DeserializeEncrypted returning the body together with the padding (GetRestOfMessage)",
   "ige.Decrypt trimming trailing zero bytes of the plaintext",
   "serializePacket writing the session id before the salt",
-  "the msg_key of a received packet read through Int128 (leading zeros lost)"
+  "the msg_key of a received packet read through Int128 (leading zeros lost)",
+  "server packets with non-zero alignment bytes refused"
  ],
  "C04": [
   "the integer type used in the declared-length check of DeserializeEncrypted",
@@ -65,7 +68,8 @@ PREV = {
   "the plaintext re-sliced past the inner header before the length refusal",
   "transport.ReadMsg routing every packet to the plain parser while the session has no key",
   "the plain reader comparing the declared length with the body read instead of len(data)",
-  "transport.ReadMsg latching the first auth key it saw"
+  "transport.ReadMsg latching the first auth key it saw",
+  "a constant-time msg_key comparison that assigns instead of accumulating"
  ],
  "C05": [
   "the bound of the padding-strip loop in DecryptMessageWithTempKeys",
@@ -80,7 +84,8 @@ PREV = {
   "DecryptMessageWithTempKeys decrypting into a sync.Pool buffer",
   "NewCipher caching the key schedule keyed by the caller's (aliased) key slice",
   "EncryptMessageWithTempKeys hashing payload plus padding",
-  "ige.Decrypt running the block loop in place over the caller's ciphertext"
+  "ige.Decrypt running the block loop in place over the caller's ciphertext",
+  "NewCipher pointing a chaining register at the caller's IV slice"
  ],
  "C06": [
   "the byte width used for the salt derived from server_nonce",
@@ -95,7 +100,8 @@ PREV = {
   "p_q_inner_data.pq re-rendered from the parsed number (pq.Bytes())",
   "a generator check in makeAuthKey that forgets g = 4",
   "SplitPQ drawing from one package-level math/rand.Rand",
-  "MakeGAB stepping b and g_b to full width while g_ab stays"
+  "MakeGAB stepping b and g_b to full width while g_ab stays",
+  "a server_time freshness check in makeAuthKey"
  ],
  "C07": [
   "a wrong variable in one of the nonce comparisons of makeAuthKey",
@@ -110,7 +116,8 @@ PREV = {
   "keys.RSAFingerprint memoised by a package-level sync.Once",
   "Disconnect saving the session whenever an auth key is present",
   "readMsg passing only the success constructors to the service channel",
-  "the SHA-1 prefix of the DH answer compared through MessageKey (bytes 4..19 only)"
+  "the SHA-1 prefix of the DH answer compared through MessageKey (bytes 4..19 only)",
+  "a wrong resPQ nonce waited out by reading the service channel again"
  ],
  "C08": [
   "a shift amount in the abridged length header writer",
@@ -125,7 +132,8 @@ PREV = {
   "SetLinger(0) on the dialled TCP socket",
   "the abridged reader wrapping its read errors with %w",
   "the intermediate length-prefix buffer kept in the mode object and shared by ReadMsg and WriteMsg",
-  "a four-byte frame treated as an error code only when negative"
+  "a four-byte frame treated as an error code only when negative",
+  "a write deadline on the TCP connection"
  ],
  "C09": [
   "registering the response waiter after the request was written",
@@ -140,7 +148,8 @@ PREV = {
   "Disconnect closing and forgetting every waiter",
   "container items dispatched in goroutines that share the loop variable",
   "tryToProcessErr answering nil for rpc_error codes >= 500",
-  "the bad_server_salt arm leaving early when the salt is already adopted"
+  "the bad_server_salt arm leaving early when the salt is already adopted",
+  "a response timeout in makeRequest that leaves the table entry"
  ],
  "C10": [
   "an early return that skips the acknowledgement in processResponse",
@@ -155,7 +164,8 @@ PREV = {
   "the ack test written as seq_no%2 == 1",
   "the bad_server_salt handler assigning bad_msg_seqno to the seq_no counter",
   "the msg_container decoder reusing one Encrypted header for every item",
-  "a process-wide server-time offset applied in GenerateMessageId"
+  "a process-wide server-time offset applied in GenerateMessageId",
+  "the send lock released by hand (leaked on the write-error return)"
  ],
  "C11": [
   "skipping the waiter notification when the new salt was already adopted",
@@ -170,7 +180,8 @@ PREV = {
   "a guard-clause break in the bad_server_salt arm leaving m.mutex locked",
   "the rotation handler deleting every table entry older than the rejected id",
   "the bad_server_salt arm routed through writeRPCResponse (NotFound returned for a rejected ack)",
-  "the retry marker sent with select/default"
+  "the retry marker sent with select/default",
+  "the new_session_created arm sending the retry marker to every older entry"
  ],
  "C12": [
   "opening the session file without truncation in Store",
@@ -185,7 +196,8 @@ PREV = {
   "the loader's cache key kept as mtime in whole seconds",
   "NewMTProto treating a stored session with salt 0 as not encrypted",
   "NewFromFile expanding environment variables in the path",
-  "telegram.NewClient checking the session directory via filepath.Split"
+  "telegram.NewClient checking the session directory via filepath.Split",
+  "SaveSession in the rotation arm only when a waiter exists"
  ],
  "C13": [
   "two parameters swapped in one generated method signature",
@@ -200,7 +212,8 @@ PREV = {
   "a field's flag bit changed in types_gen.go (WallPaperSettings.Rotation)",
   "one generated method building another method's Params struct",
   "a generated wrapper returning the type assertion's ok flag instead of the asserted value",
-  "a Params field typed with the non-input twin constructor"
+  "a Params field typed with the non-input twin constructor",
+  "a type declared and registered without a schema line (msg_resend_ans_req)"
  ],
  "C14": [
   "the vector-ness of a parameter dropped from the generator's argument grouping test",
@@ -215,7 +228,8 @@ PREV = {
   "the enum classification taken from the last constructor of the type",
   "encoded_in_bitflags emitted for every conditional Go bool (flags.N?Bool too)",
   "FlagIndex() emitted only when maxBitflag() > 0",
-  "the wrapper's error branch returning a zero literal chosen from the element type alone"
+  "the wrapper's error branch returning a zero literal chosen from the element type alone",
+  "section markers toggling the parser's section"
  ],
  "C15": [
   "an integer overflow in the vector size bound of the decoder",
@@ -230,7 +244,8 @@ PREV = {
   "the string-length bound moved into read(), after the allocation",
   "DecodeNestedObject starting the inner decoder at depth 0",
   "the nesting depth counted only for pointer and slice kinds",
-  "PopRawBytes losing its size < 0 test"
+  "PopRawBytes losing its size < 0 test",
+  "a typed-nil test with reflect.Value.IsNil on every decoded kind"
  ],
  "C16": [
   "waiting on the goroutine wait-group from inside the reading goroutine on disconnect",
@@ -245,7 +260,8 @@ PREV = {
   "a guard-clause break in the bad_server_salt arm leaving m.mutex locked",
   "the EOF arm of the receive loop calling CreateConnection without Disconnect",
   "the waiter table's Add taking RLock instead of Lock",
-  "a replay guard on the highest server msg_id at the entry of processResponse"
+  "a replay guard on the highest server msg_id at the entry of processResponse",
+  "the pinger not counted in routineswg while still calling Done"
  ],
  "C17": [
   "an extra row in the error-prefix table",
@@ -260,7 +276,8 @@ PREV = {
   "negative rpc_error codes made positive in RpcErrorToNative",
   "a gzip_packed rpc_result delivered without unwrapping (rpc_error lost)",
   "a negative PHONE_MIGRATE target flipped to its absolute value",
-  "a failed migration reconnecting back and returning that reconnect's result"
+  "a failed migration reconnecting back and returning that reconnect's result",
+  "structured errors cached by error text (code included)"
  ],
  "C18": [
   "the 256-byte padding dropped on one SRP intermediate value",
@@ -275,7 +292,8 @@ PREV = {
   "the exported wrapper testing res == nil before err",
   "H(p) xor H(g) computed through big.Int (leading zero bytes lost)",
   "the SRP group check refusing g >= 7",
-  "the 'no password' early return also firing for an empty B"
+  "the 'no password' early return also firing for an empty B",
+  "the wrap-around branch of t = B - k*v computed the other way round"
  ],
  "C19": [
   "a math/rand fallback when crypto/rand fails",
@@ -290,7 +308,8 @@ PREV = {
   "the clock OR-ed into the req_pq nonce after the draw",
   "the upper half of the req_pq nonce overwritten with the session id",
   "the SRP ephemeral redrawn from math/rand when it is >= p",
-  "a Config.Rand field assigned to crypto/rand.Reader in NewMTProto"
+  "a Config.Rand field assigned to crypto/rand.Reader in NewMTProto",
+  "the SRP ephemeral derived deterministically from password and srp_B"
  ],
  "C20": [
   "lower-casing the whole URL path before template matching",
@@ -305,7 +324,8 @@ PREV = {
   "a third path template /joinchat overlapping /{username}",
   "host membership tested with strings.EqualFold",
   "lower-casing of the username skipped unless unicode.IsUpper finds a letter",
-  "the scheme switch rewritten with strings.HasPrefix(\"https\", scheme)"
+  "the scheme switch rewritten with strings.HasPrefix(\"https\", scheme)",
+  "the port cut at the first colon by hand instead of Hostname()"
  ]
 }
 TASK = 'You are helping test a verification framework by writing ONE realistic defect into a Go library. Work ONLY inside the git worktree /tmp/seed/{ID}-{R} (a checkout of the pure-Go MTProto/Telegram client library xelaj/mtproto). Do NOT read or write anything under /verif, /repo or /root/.vp, and do not look at other directories under /tmp/seed. Do NOT use `git stash` (the stash is shared with other worktrees): to run something without your change use `git diff > /tmp/seed/{ID}-{R}.patch; git apply -R /tmp/seed/{ID}-{R}.patch; ...; git apply /tmp/seed/{ID}-{R}.patch`.\n\nThe property the library is supposed to satisfy is in /tmp/seed/{ID}-{R}.prop.txt - read it first, then read the source files it names (and whatever they call).\n\nEnvironment (every shell call): `export GOFLAGS=-mod=mod GOPROXY=off GOSUMDB=off GOTOOLCHAIN=local` (no network, nothing can be downloaded). The repository has three Go modules: `.`, `internal/cmd/tlgen`, `telegram/deeplinks`. The existing test suite is: `for m in . internal/cmd/tlgen telegram/deeplinks; do (cd /tmp/seed/{ID}-{R}/$m && go test -vet=off -count=1 ./...) || echo FAILED; done` (building package telegram takes about a minute).\n\nTask: make ONE small, realistic change to the non-test source (the kind of slip, "simplification", "optimisation", "hardening", refactoring or well-meant "fix" a hurried maintainer could plausibly make and a reviewer could plausibly miss) such that the property NO LONGER HOLDS for some input / path / schedule / history, while (a) everything still compiles in all three modules and (b) the existing test suite still passes, unedited. Prefer a defect that needs something specific to manifest (a particular value shape, boundary, rare path, interleaving or error condition) over one that breaks every use. Keep the change minimal (1-12 lines). Previous testers already tried these: {PREV}. Choose a DIFFERENT place and mechanism from all of them. Go through the clauses of the property statement and its quantifier one by one, list which clause each earlier attempt attacked, and pick a clause (or a helper function, a caller, an initialisation, a cleanup path) nobody has touched; the less obvious the better, as long as the property is genuinely broken.\n\nDeliver, all inside /tmp/seed/{ID}-{R}:\n1. the change itself, left uncommitted in the worktree (source files only);\n2. a demonstration: NEW test file(s) named zz_seed_demo_test.go in the package(s) concerned (same-package tests may use unexported identifiers), test names starting with TestSeed, that FAIL with your change and PASS on the original code - verify both yourself; it must be deterministic (or repeat enough to be reliable) and finish within a minute; use fake connections/servers/in-memory pipes where needed, never the network;\n3. /tmp/seed/{ID}-{R}/SEED.md describing: what you changed and where, why it breaks the property, what it needs in order to manifest, and the exact commands you ran with their results.\n\nFinish by reporting: the output of `git -C /tmp/seed/{ID}-{R} diff` (source change only), the demo file path(s), and the observed results of the runs (suite with change, demo with change, demo without change). If your first idea turns out to be caught by the existing tests, try another. If, while reading, you notice something in the UNCHANGED code that already violates the property, mention it briefly at the end of your report (do not use it as your seed).\n'
